@@ -14,10 +14,11 @@ hooks = {"guard": "verif",
          "baseline_off_cmd": "cd /repo && GOFLAGS=-mod=mod GOPROXY=off go test -vet=off -count=1 -timeout 25m ./...",
          "source_commits": [], "add_only": True}
 checks, na = [], []
+registered = set(open(os.path.join(V, "registered.txt")).read().split())
 for p in props:
     i = p["id"]
     m = table[i]
-    if i not in have or m.get("disabled"):
+    if i not in have or m.get("disabled") or i not in registered:
         na.append({"property_id": i, "reason": m.get("na_reason", "monitor not registered yet (implementation in progress; design in DESIGN.md section 4)")})
         continue
     units = ", ".join(sorted({t.split("_", 2)[2] for _, t, _ in have[i]}))
